@@ -247,7 +247,30 @@ async fn run_scenario(sc: &Value) -> Value {
     let log: Log = Arc::new(Mutex::new(vec![]));
     let cfg = &sc["config"];
     let rec = Recorder { log: log.clone(), script: sc.get("backend").cloned().unwrap_or(json!({})) };
-    let mut b = s3s::service::S3ServiceBuilder::new(rec);
+    // config.proxy: client -> this adapter -> s3s_aws::Proxy (aws-sdk-s3 client) -> second adapter -> recording backend
+    let mut b = if cfg.get("proxy").and_then(|v| v.as_bool()).unwrap_or(false) {
+        let inner = {
+            let mut ib = s3s::service::S3ServiceBuilder::new(rec);
+            ib.set_auth(s3s::auth::SimpleAuth::from_single("PROXYKEY", "PROXYSECRET"));      // the SDK client signs its requests
+            ib.build()
+        };
+        let conf = aws_sdk_s3::Config::builder()
+            .behavior_version_latest()
+            .credentials_provider(aws_sdk_s3::config::Credentials::new("PROXYKEY", "PROXYSECRET", None, None, "verif"))
+            .http_client(s3s_aws::Client::from(inner))
+            .region(aws_sdk_s3::config::Region::new("us-east-1"))
+            .endpoint_url("http://localhost")
+            .force_path_style(true)
+            // streaming bodies would otherwise be sent as STREAMING-UNSIGNED-PAYLOAD-TRAILER, which this version of the adapter refuses
+            .request_checksum_calculation(aws_sdk_s3::config::RequestChecksumCalculation::WhenRequired)
+            .response_checksum_validation(aws_sdk_s3::config::ResponseChecksumValidation::WhenRequired)
+            .retry_config(aws_sdk_s3::config::retry::RetryConfig::disabled())
+            .stalled_stream_protection(aws_sdk_s3::config::StalledStreamProtectionConfig::disabled())
+            .build();
+        s3s::service::S3ServiceBuilder::new(s3s_aws::Proxy::from(aws_sdk_s3::Client::from_conf(conf)))
+    } else {
+        s3s::service::S3ServiceBuilder::new(rec)
+    };
     if let Some(keys) = cfg.get("auth").and_then(|v| v.as_object()) {
         b.set_auth(RecAuth { log: log.clone(), keys: keys.iter().map(|(k, v)| (k.clone(), v.as_str().unwrap().to_string())).collect() });
     }
